@@ -256,6 +256,23 @@ def run(ctx):
                         continue
                     n_memo += 1
                     memo_tables.add(D)
+                    # S7: what is kept in a memo table is handed out again and again: a one-shot iterator (a generator object, a
+                    # generator expression, map / filter / zip / iter) is exhausted by its first consumer
+                    v7 = sc.resolve(n.value)
+                    one_shot = None
+                    if isinstance(v7, ast.GeneratorExp):
+                        one_shot = "a generator expression"
+                    elif isinstance(v7, ast.Call) and txt(v7.func) in ("map", "filter", "zip", "iter", "reversed", "enumerate", "itertools.chain", "chain", "chain.from_iterable", "itertools.chain.from_iterable"):
+                        one_shot = f"the iterator `{txt(v7.func)}(..)`"
+                    elif isinstance(v7, ast.Call):
+                        cal7 = rules.resolve_call(prog, f, v7)
+                        if cal7 is not None and any(isinstance(y, (ast.Yield, ast.YieldFrom)) for y in astx.walk_fn(cal7.node)):
+                            one_shot = f"the generator object returned by `{cal7.qualname}` (it contains `yield`)"
+                    if one_shot:
+                        found = True
+                        o.violated(f, n, f"S7: memo table `{D}` stores {one_shot}: the first lookup consumes it, every later lookup of the same key finds it exhausted and "
+                                         "iterates over nothing (the cached answer silently becomes empty)", sure=True)
+                        continue
                     key_r = sc.resolve(tgt.slice)
                     key_names = set(astx.names_in(key_r))
                     if isinstance(key_r, ast.JoinedStr):
